@@ -14,7 +14,16 @@
 EXTENDS Integers, Sequences, FiniteSets, TLC
 
 CallTypes == {"quorumcall", "async", "correctable", "multicast", "unicast"}
-IOs == {"local", "emptyin", "emptyout"}
+\* where the request / response type comes from: this file, the well-known Empty, or a
+\* message imported from another Go package (extin / extout) whose package name is the
+\* service definition's ext field
+IOs == {"local", "emptyin", "emptyout", "extin", "extout"}
+\* Go package names of an imported message: an ordinary one and names that the static
+\* part of every generated file uses itself
+ExtPkgs == {"ext", "encoding", "fmt", "gorums", "context", "proto"}
+\* how the rpc names of a service are written; the stub is named GoCamelCase(name), the
+\* wire name is the name as written
+Namings == {"Camel", "lowerCamel", "snake", "lower"}
 
 Methods == [ct : SUBSET CallTypes, pn : BOOLEAN, cu : BOOLEAN, cs : BOOLEAN, ss : BOOLEAN, io : IOs]
 
@@ -38,7 +47,9 @@ Documented(m) ==
 
 MVerdict(m) == IF Illegal(m) THEN "reject" ELSE IF Documented(m) THEN "accept" ELSE "either"
 
-\* a service definition: methods (with distinct names), a reserved message name or "", number of services
+\* a service definition: methods (with distinct names), a reserved message name or "", number of
+\* services, the package name of imported messages and the naming style of its rpcs (any
+\* non-reserved name is allowed: neither changes the verdict)
 Verdict(s) ==
   CASE s.reserved # "" -> "reject"
     [] \E i \in DOMAIN s.methods : MVerdict(s.methods[i]) = "reject" -> "reject"
